@@ -403,6 +403,71 @@ def run_workers(exe, prop, tier, seed, plan, nworkers, env_extra=None, timeout=N
     return results, tmpd
 
 
+def run_fuzz_stage(exe, prop, tier, seed, stage):
+    """Second engine: coverage-guided libFuzzer campaign with the semantic oracle inside the target. Returns (stats list, failures)."""
+    name = stage['name']
+    nworkers = stage.get('workers', {}).get(tier, JOBS)
+    runs = max(1, stage['runs'][tier] // nworkers)
+    tmpd = os.path.join(BUILD, 'run', '%s-%s-%d' % (prop, name, os.getpid()))
+    shutil.rmtree(tmpd, ignore_errors=True)
+    os.makedirs(tmpd)
+    os.makedirs(os.path.join(VERIF, 'replay'), exist_ok=True)
+    seed_corpus = os.path.join(VERIF, 'fuzz', 'corpus', stage['target'])
+    procs = []
+    for i in range(nworkers):
+        corpus = os.path.join(tmpd, 'corpus%d' % i)
+        os.makedirs(corpus)
+        out = os.path.join(tmpd, 'w%d.json' % i)
+        prefix = os.path.join(VERIF, 'replay', '%s-fuzz-%s-%d-w%d-' % (prop, stage['target'], seed, i))
+        for old in glob.glob(prefix + '*'):
+            os.remove(old)
+        cmd = [exe, '-runs=%d' % runs, '-seed=%d' % (worker_seed(seed, prop + name, i) % 2000000000 + 1), '-max_len=%d' % stage.get('max_len', 4096),
+               '-print_final_stats=1', '-artifact_prefix=' + prefix, '-entropic=0', '-timeout=120', '-rss_limit_mb=8000', corpus]
+        if os.path.isdir(seed_corpus):
+            cmd.append(seed_corpus)
+        env = dict(os.environ)
+        env['ASAN_OPTIONS'] = 'detect_leaks=0:abort_on_error=0:allocator_may_return_null=1'
+        env['FZ_OUT'] = out
+        env['FZ_REPLAY_DIR'] = os.path.join(VERIF, 'replay')
+        log = open(os.path.join(tmpd, 'w%d.log' % i), 'w')
+        procs.append((subprocess.Popen(cmd, stdout=log, stderr=subprocess.STDOUT, env=env, cwd=VERIF), out, log, prefix))
+    stats, fails = [], []
+    total_exec = 0
+    for p, out, log, prefix in procs:
+        rc = p.wait()
+        log.close()
+        txt = open(log.name, errors='replace').read()
+        m = re.search(r'stat::number_of_executed_units:\s*(\d+)', txt)
+        if m:
+            total_exec += int(m.group(1))
+        st = None
+        if os.path.exists(out):
+            try:
+                st = json.load(open(out))
+            except Exception:
+                st = None
+        stats.append(st)
+        arts = [a for a in glob.glob(prefix + '*') if os.path.basename(a)[len(os.path.basename(prefix)):].startswith(('crash-', 'leak-'))]
+        for a in arts:
+            why = re.findall(r'FUZZ-VIOLATION: (.*)', txt)
+            fails.append({'replay': a, 'why': '[fuzz:%s] %s' % (stage['target'], (why[-1] if why else 'crash / sanitizer report: ' + txt[-400:]))[:1500], 'crash': True, 'fuzz': True})
+        if rc != 0 and not arts:
+            # slow-unit / oom / timeout artifacts are load noise, not violations
+            pass
+    shutil.rmtree(tmpd, ignore_errors=True)
+    return stats, fails, total_exec
+
+
+def replay_fuzz(exe, path, timeout=300):
+    env = dict(os.environ)
+    env['ASAN_OPTIONS'] = 'detect_leaks=0:abort_on_error=0'
+    try:
+        r = subprocess.run([exe, path], stdout=subprocess.PIPE, stderr=subprocess.STDOUT, text=True, env=env, cwd=VERIF, timeout=timeout, errors='replace')
+        return r.returncode, r.stdout[-3000:]
+    except subprocess.TimeoutExpired:
+        return -999, 'timeout'
+
+
 def replay_once(exe, prop, path, env_extra=None, timeout=600):
     env = dict(os.environ)
     env.setdefault('ASAN_OPTIONS', 'detect_leaks=0:abort_on_error=1:allocator_may_return_null=1')
@@ -544,6 +609,7 @@ def run_check(prop, tier, seed):
     if 'pre' in spec:
         spec['pre']()
     violations = []      # (replay path, description)
+    fuzz_execs = {}
     known_hits = []
     all_stats = []
     notes = []
@@ -565,6 +631,19 @@ def run_check(prop, tier, seed):
             except BuildError as e:
                 print('BUILD-ERROR for %s:\n%s' % (prop, e))
                 return 2
+        if stage.get('kind') == 'fuzz':
+            fstats, ffails, fexec = run_fuzz_stage(exe, prop, tier, seed, stage)
+            all_stats.extend(fstats)
+            fuzz_execs[stage['target']] = fuzz_execs.get(stage['target'], 0) + fexec
+            for f in ffails:
+                if len(violations) >= 3:
+                    break
+                confirmed = sum(1 for _ in range(3) if replay_fuzz(exe, f['replay'])[0] != 0)
+                if confirmed == 3:
+                    violations.append((f['replay'], f['why']))
+                else:
+                    notes.append('fuzz artifact did not reproduce (%d/3): %s' % (confirmed, f['replay']))
+            continue
         plan = stage['plan'][tier]
         nworkers = stage.get('workers', {}).get(tier, JOBS)
         results, tmpd = run_workers(exe, prop, tier, seed, plan, nworkers, stage.get('env'), stage.get('timeout', {}).get(tier),
@@ -632,6 +711,8 @@ def run_check(prop, tier, seed):
             seen.add(k['what'])
             print('KNOWN-FINDING: property=%s %s' % (prop, k['what']))
     distinct = len(nt) + labels.get('exhaustive-distinct', 0)
+    for t, n in fuzz_execs.items():
+        labels['libfuzzer-executions:' + t] = n
     cov = dict(evaluations=ev, distinct_nontrivial=distinct, rule=spec['rule'], samples=samples, labels=labels,
                subchecks=subs, notes=notes[:10])
     if spec.get('exhaustive', {}).get(tier):
@@ -658,9 +739,22 @@ def run_check(prop, tier, seed):
 def replay(prop, path):
     import checks
     spec = checks.CHECKS[prop]
+    if '-fuzz-' in os.path.basename(path):
+        for st in spec.get('stages', []):
+            if st.get('kind') == 'fuzz' and ('-fuzz-%s-' % st['target']) in os.path.basename(path):
+                exe = ensure_harness(st['harness'])
+                rc, out = replay_fuzz(exe, path)
+                print(out)
+                if rc != 0:
+                    print('VIOLATION property=%s replay=%s' % (prop, path))
+                    return 1
+                print('replay passes')
+                return 0
     kv = read_kv(path)
     stage = None
     for st in spec.get('stages', []):
+        if st.get('kind') == 'fuzz':
+            continue
         if kv.get('stage') in (None, st.get('name')):
             stage = st
             break
